@@ -362,15 +362,16 @@ def instantiate(template, name, ns, generated):
     at the template's own file and line numbers, so its frames show source lines; generated=True: compiled from
     the bare string with a made-up file name - like exec()-generated code, a REPL cell or python -c, no source
     text can be retrieved for its frames."""
-    if template not in _SRC:
+    key = (template, generated)
+    if key not in _SRC:
         import inspect
         lines, start = inspect.getsourcelines(template)
-        _SRC[template] = ("".join(lines), start, inspect.getsourcefile(template))
-    src, start, fname = _SRC[template]
-    if generated:
-        code = compile(src, "<c18 generated %s>" % name, "exec")
-    else:
-        code = compile("\n" * (start - 1) + src, fname, "exec")
+        src = "".join(lines)
+        if generated:
+            _SRC[key] = compile(src, "<c18 generated code>", "exec")
+        else:
+            _SRC[key] = compile("\n" * (start - 1) + src, inspect.getsourcefile(template), "exec")
+    code = _SRC[key]
     g = dict(globals())
     g.update(ns)
     exec(code, g)
@@ -400,8 +401,9 @@ def run_glue(case):
                 for entry in st:
                     m = _LVL.search(entry)
                     got.append(int(m.group(1)) if m else "?" + entry[:60])
-            asynq.debug.dump_asynq_stack()
-            asynq.scheduler.get_active_task().dump()
+            if nosrc:  # the other diagnostics that walk the same frames must not raise either
+                asynq.debug.dump_asynq_stack()
+                asynq.scheduler.get_active_task().dump()
         except BaseException as e:  # noqa
             got = ["raised", type(e).__name__]
         probes.append({"lvl": i, "at": where, "stack": got})
